@@ -102,9 +102,10 @@ func overlaySource(repo string) (string, error) {
 	}
 	sort.Slice(gfs, func(i, j int) bool { return gfs[i].name < gfs[j].name })
 	var sb strings.Builder
-	sb.WriteString("package codec\n\nimport \"bytes\"\n\n")
+	sb.WriteString("package codec\n\nimport (\n\t\"bytes\"\n\t\"errors\"\n)\n\n")
 	sb.WriteString("type ZzObj struct{ V uint16 }\n")
-	sb.WriteString("func (o *ZzObj) Encode(buf *bytes.Buffer) error { return WriteBasicType(buf, o.V) }\n")
+	// (an element whose own Encode refuses: V == 0xFFFF; the drivers exclude that value except where the refusal is the subject)
+	sb.WriteString("func (o *ZzObj) Encode(buf *bytes.Buffer) error {\n\tif o.V == 0xFFFF {\n\t\treturn errors.New(\"zz: element refuses to encode\")\n\t}\n\treturn WriteBasicType(buf, o.V)\n}\n")
 	sb.WriteString("func (o *ZzObj) Decode(buf *bytes.Buffer) error { v, err := ReadBasicType[uint16](buf); o.V = v; return err }\n")
 	sb.WriteString("func NewZzObj() *ZzObj { return &ZzObj{} }\n\n")
 	sb.WriteString("var zzVerifSink []any\n\nfunc zzVerifInst() {\n")
